@@ -135,3 +135,6 @@ func c04Fmt(rs []Range) string {
 func TestC04Normalize(t *testing.T) {
 	kit.Check(t, "C04", "TestC04Normalize", c04Gen, c04Exec)
 }
+
+// FuzzC04Normalize: the same generator and oracle as TestC04Normalize under Go's coverage-guided fuzzer (thorough tier).
+func FuzzC04Normalize(f *testing.F) { kit.FuzzOf(f, "C04", "TestC04Normalize", c04Gen, c04Exec) }
